@@ -149,9 +149,10 @@ func derefNamed(t types.Type) *types.Named {
 }
 
 type entryEdge struct {
-	from *ssa.Function
-	site ssa.Instruction // lockset taken just before this instruction
-	kind string
+	from  *ssa.Function
+	site  ssa.Instruction // lockset taken just before this instruction
+	kind  string
+	outer ssa.Instruction // for closures entered through a wrapper: the call that passed the closure (its lockset is added)
 }
 
 type LockInfo struct {
@@ -235,14 +236,14 @@ func (w *World) lockInfo() *LockInfo {
 					targets = []*ssa.Function{sc}
 				}
 				for _, t := range targets {
-					add(t, entryEdge{f, in, kind})
+					add(t, entryEdge{from: f, site: in, kind: kind})
 				}
 				// calling the closure a module function returned (iterator pattern: m.All()(yield))
 				if len(targets) == 0 && !cc.IsInvoke() {
 					if rc, ok := cc.Value.(*ssa.Call); ok {
 						if g := rc.Call.StaticCallee(); g != nil && inMod[g] {
 							for _, cl := range returnedClosures(g) {
-								add(cl, entryEdge{f, in, kind})
+								add(cl, entryEdge{from: f, site: in, kind: kind})
 								targets = append(targets, cl)
 							}
 						}
@@ -262,20 +263,20 @@ func (w *World) lockInfo() *LockInfo {
 						// index among callee params (receiver is param 0 for methods in SSA)
 						if sites := li.paramCalls[t][ai]; len(sites) > 0 {
 							for _, s := range sites {
-								add(cl, entryEdge{t, s, "param-call"})
+								add(cl, entryEdge{from: t, site: s, kind: "param-call", outer: in})
 							}
 							handled = true
 						} else if t != nil {
 							// callee stores or forwards the function: unknown entry
-							add(cl, entryEdge{nil, nil, "escapes"})
+							add(cl, entryEdge{from: nil, site: nil, kind: "escapes"})
 							handled = true
 						}
 					}
 					if !handled {
 						if kind == "call" {
-							add(cl, entryEdge{f, in, "sync-callback"})
+							add(cl, entryEdge{from: f, site: in, kind: "sync-callback"})
 						} else {
-							add(cl, entryEdge{nil, nil, kind})
+							add(cl, entryEdge{from: nil, site: nil, kind: kind})
 						}
 					}
 				}
@@ -301,7 +302,7 @@ func (w *World) lockInfo() *LockInfo {
 						if _, isMC := in.(*ssa.MakeClosure); isMC {
 							continue
 						}
-						add(fn, entryEdge{nil, nil, "value"})
+						add(fn, entryEdge{from: nil, site: nil, kind: "value"})
 					}
 				}
 			}
@@ -320,7 +321,7 @@ func (w *World) lockInfo() *LockInfo {
 					// bound method value of a module method: unknown entry
 					if cl != nil && cl.Synthetic != "" && cl.Object() != nil {
 						if target := w.prog.FuncValue(cl.Object().(*types.Func)); target != nil && inMod[target] {
-							add(target, entryEdge{nil, nil, "bound-method-value"})
+							add(target, entryEdge{from: nil, site: nil, kind: "bound-method-value"})
 						}
 					}
 					continue
@@ -339,11 +340,11 @@ func (w *World) lockInfo() *LockInfo {
 							case *ssa.Defer:
 								k = "defer"
 							}
-							add(cl, entryEdge{f, r, k})
+							add(cl, entryEdge{from: f, site: r, kind: k})
 						}
 						continue
 					}
-					add(cl, entryEdge{nil, nil, "escapes"})
+					add(cl, entryEdge{from: nil, site: nil, kind: "escapes"})
 				}
 			}
 		}
@@ -377,7 +378,7 @@ func (w *World) lockInfo() *LockInfo {
 								m = w.prog.FuncValue(fo)
 							}
 						}
-						add(m, entryEdge{nil, nil, "foreign-interface"})
+						add(m, entryEdge{from: nil, site: nil, kind: "foreign-interface"})
 					}
 				}
 			}
@@ -385,7 +386,7 @@ func (w *World) lockInfo() *LockInfo {
 	}
 	for _, f := range w.modFuncs {
 		if f.Parent() == nil && (f.Name() == "MarshalJSON" || f.Name() == "UnmarshalJSON") {
-			add(f, entryEdge{nil, nil, "reflection"})
+			add(f, entryEdge{from: nil, site: nil, kind: "reflection"})
 		}
 	}
 	// fixpoint
@@ -413,6 +414,13 @@ func (w *World) lockInfo() *LockInfo {
 					ls = lockset{}
 				} else {
 					ls = li.before(e.site)
+					if e.outer != nil {
+						if _, isGo := e.outer.(*ssa.Go); !isGo {
+							if _, isDefer := e.outer.(*ssa.Defer); !isDefer {
+								ls = union(ls, li.before(e.outer))
+							}
+						}
+					}
 				}
 				if acc == nil {
 					acc = ls.clone()
